@@ -834,6 +834,43 @@ class Instrs(CallsMixin):
                     return st.load(st.ptr_loc(cell), facts=False)
         return None
 
+    def preloop_value(self, st, fr, o, body, reads, depth=0):
+        """value at loop entry of an operand computed inside the loop by loads of fields of
+        loop-invariant pointers; the regions read are recorded in `reads` (the caller must
+        drop the value when the loop can write one of them)"""
+        if o is None or depth > 4:
+            return None
+        if self.defined_outside(fr, o, body):
+            try:
+                return self.operand(st, fr, o)
+            except Exception:
+                return None
+        if o['k'] != 'reg':
+            return None
+        d = self.def_instr(fr, o['name'])
+        if d is None:
+            return None
+        try:
+            if d['op'] == 'UnOp' and d.get('uop') == '*':
+                a = self.preloop_value(st, fr, d['x'], body, reads, depth + 1)
+                if a is None:
+                    return None
+                loc = st.ptr_loc(a)
+                reads.append((loc.fam, loc.tk, loc.static_path()))
+                v = st.load(loc, facts=False)
+                return Val(d['type'], v.lv)
+            if d['op'] == 'FieldAddr':
+                x = self.preloop_value(st, fr, d['x'], body, reads, depth + 1)
+                if x is None or x.lv is None:
+                    return None
+                base = st.ptr_loc(x)
+                ft = self.types.elem(d['type'])
+                loc = st.field_loc(base, d['fname'], ft)
+                return Val(d['type'], {(): V.interior_handle(loc)}, loc=loc)
+        except Exception:
+            return None
+        return None
+
     def def_block(self, fr, name):
         dm = getattr(fr, 'defmap', None)
         if dm is None:
@@ -913,6 +950,7 @@ class Instrs(CallsMixin):
         body = fr.cfg.loops[h]
         writes = {}
         everything = False
+        deferred = []
         self._loop_ranges = {}
 
         def add(pfx, base):
@@ -949,8 +987,21 @@ class Instrs(CallsMixin):
                         mv = self.operand(st, fr, ins['map'])
                         if mv.lv is not None:
                             base = mv.term
-                    add(('map', mt, ()), base)
+                        add(('map', mt, ()), base)
+                    else:
+                        deferred.append((('map', mt, ()), ins['map']))
                 elif op in ('Call', 'Defer'):
+                    fnv = ins['call'].get('fn') or {}
+                    if fnv.get('k') == 'builtin' and fnv.get('name') in ('delete', 'clear') and \
+                            types.kind(ins['call']['args'][0]['type']) == 'map':
+                        a0 = ins['call']['args'][0]
+                        mt = types.under(a0['type'])
+                        if self.defined_outside(fr, a0, body):
+                            mv = self.operand(st, fr, a0)
+                            add(('map', mt, ()), mv.term if mv.lv is not None else None)
+                        else:
+                            deferred.append((('map', mt, ()), a0))
+                        continue
                     w = self.call_writes(st, fr, ins, body)
                     if w == 'all':
                         everything = True
@@ -959,7 +1010,24 @@ class Instrs(CallsMixin):
                             add(pfx, base)
                 elif op == 'Go':
                     pass
-        return 'all' if everything else writes
+        if everything:
+            return 'all'
+
+        def written(key):
+            for pk in writes:
+                if key[0] == pk[0] and key[1] == pk[1] and (key[2][:len(pk[2])] == pk[2] or pk[2][:len(key[2])] == key[2]):
+                    return True
+            return False
+        # maps reached through fields of loop-invariant objects: the same map in every
+        # iteration provided the loop cannot write the field it is loaded from
+        for (pfx, o) in deferred:
+            reads = []
+            v = self.preloop_value(st, fr, o, body, reads)
+            if v is None or v.lv is None or any(written(r) for r in reads):
+                add(pfx, None)
+            else:
+                add(pfx, v.term)
+        return writes
 
     def havoc_loop(self, st, fr, h, phis, spec):
         types = self.types
@@ -1046,6 +1114,13 @@ class Instrs(CallsMixin):
         body = cfg.loops[h]
         blk = cfg.blocks[h]
         for ins in phis:
+            if self.types.kind(ins['type']) == 'slice':
+                # accumulators built by append: no capacity yet, or storage allocated by this call
+                def fresh_or_empty(s, name=ins['name']):
+                    v = s.regs[name]
+                    return z3.Or(v.lv[('c',)] == 0, v.lv[('b',)] > s.alloc0)
+                out.append(('%s.fresh' % ins['name'], fresh_or_empty, None))
+                continue
             if not self.types.is_int(ins['type']):
                 continue
             name = ins['name']
